@@ -1,9 +1,9 @@
 #!/bin/bash
 # seed_sweep.sh "<seeds>" [props...]: run every quick check under several VERIF_SEED values (no evidence written);
 # prints one line per (seed, property) and keeps the replays of alarms under /verif/replays/sweep-<seed>/
-cd /verif
+cd "$(cd "$(dirname "$0")/.." && pwd)"
 SEEDS=${1:-"1 2 3"}; shift
-PROPS=${@:-$(/venv/bin/python -c "import json; print(' '.join(c['property_id'] for c in json.load(open('/verif/MANIFEST.json'))['checks']))")}
+PROPS=${@:-$(/venv/bin/python -c "import json; print(' '.join(c['property_id'] for c in json.load(open('MANIFEST.json'))['checks']))")}
 for s in $SEEDS; do
   for p in $PROPS; do
     out=$(VERIF_SEED=$s timeout 900 ./check $p --no-evidence 2>&1); rc=$?
